@@ -43,9 +43,9 @@ inductive CalmReach : Net → Prop
 
 def CalmNet (n : Net) : Prop :=
   (∀ s ∈ n.nodes, CalmInv E (toldBy n.sent) ids s) ∧
-  (∀ d b, (d, b) ∈ n.wire → ∃ h ∈ n.sent, h.dst = d ∧ HWire h ∧ h.src ∈ ids ∧ h.msg ≠ .turnUndead ∧
+  (∀ d b, (d, b) ∈ n.wire → ∃ h ∈ n.sent, h.dst = d ∧ HWire h ∧ (h.src ∈ ids ∧ h.srcInc = 0) ∧ h.msg ≠ .turnUndead ∧
     DatagramShape E (CalmM (toldBy n.sent) ids) h b) ∧
-  (∀ i t, (i, t) ∈ n.timers → ∀ m inc tok, t ≠ .s2d m inc tok)
+  (∀ i t, (i, t) ∈ n.timers → (∀ m inc tok, t ≠ .s2d m inc tok) ∧ ∀ id, t ≠ .rm id)
 
 variable (hl : CodecLaws E.codec) (hhdr : HeaderLaw E.codec) (hdist : DistinctAddrs ids)
 include hl hhdr hdist
@@ -53,9 +53,9 @@ include hl hhdr hdist
 omit hl hdist in
 /-- what one calm call adds to the cluster -/
 theorem calm_after_effects {τ : Id → Nat} {eff : List Effect} (he : ∀ e ∈ eff, CalmEff E τ ids (· ≠ .turnUndead) e) :
-    (∀ d b, (d, b) ∈ sentDatagrams eff → ∃ h ∈ sentHeaders E eff, h.dst = d ∧ HWire h ∧ h.src ∈ ids ∧
+    (∀ d b, (d, b) ∈ sentDatagrams eff → ∃ h ∈ sentHeaders E eff, h.dst = d ∧ HWire h ∧ (h.src ∈ ids ∧ h.srcInc = 0) ∧
         h.msg ≠ .turnUndead ∧ DatagramShape E (CalmM τ ids) h b) ∧
-    (∀ i j t, (j, t) ∈ schedTimers i eff → ∀ m inc tok, t ≠ .s2d m inc tok) := by
+    (∀ i j t, (j, t) ∈ schedTimers i eff → (∀ m inc tok, t ≠ .s2d m inc tok) ∧ ∀ id, t ≠ .rm id) := by
   refine ⟨?_, ?_⟩
   · intro d b hdb
     unfold sentDatagrams at hdb
@@ -72,7 +72,7 @@ theorem calm_after_effects {τ : Id → Nat} {eff : List Effect} (he : ∀ e ∈
       unfold sentHeaders
       rw [List.mem_filterMap]
       exact ⟨_, hmem, shape_header E hhdr h5 h2⟩
-  · intro i j t hmem m inc tok ht
+  · intro i j t hmem
     unfold schedTimers at hmem
     rw [List.mem_filterMap] at hmem
     obtain ⟨e, hm, hq⟩ := hmem
@@ -82,8 +82,9 @@ theorem calm_after_effects {τ : Id → Nat} {eff : List Effect} (he : ∀ e ∈
     | timer a t' =>
       simp only [Option.some.injEq, Prod.mk.injEq] at hq
       obtain ⟨_, rfl⟩ := hq
-      subst ht
-      exact he _ hm
+      refine ⟨fun m inc tok ht => ?_, fun id ht => ?_⟩
+      · subst ht; exact he _ hm
+      · subst ht; exact he _ hm
 
 omit hl in
 /-- one calm call of node `i` keeps the cluster invariant -/
@@ -133,12 +134,12 @@ theorem CalmNet.reachable {n : Net} (h : CalmReach E ids n) : CalmNet E ids n :=
   | @deliver n i s s' d b orc eff r left _ hs hw hstep ih =>
     refine CalmNet.after E ids hhdr hdist n i s s' (.data b) orc eff r left ih hs ?_ hstep
     obtain ⟨h, hm, q1, q2, q3, q4, q5⟩ := ih.2.1 d b hw
-    exact shape_dataOk E hl hhdr (fun u hu => (mwire_iff u).1 hu.1.1) q5 q2 ⟨q2, q3, toldBy_mem hm, q4⟩
+    exact shape_dataOk E hl hhdr (fun u hu => (mwire_iff u).1 hu.1.1) q5 q2 ⟨q2, q3.1, toldBy_mem hm, q4, q3.2⟩
   | @fire n i s s' t orc eff r left _ hs hw hpr hstep ih =>
     refine CalmNet.after E ids hhdr hdist n i s s' (.timer t) orc eff r left ih hs ?_ hstep
     have hns := ih.2.2 i t hw
     cases t with
-    | s2d m inc tok => exact absurd rfl (hns m inc tok)
+    | s2d m inc tok => exact absurd rfl (hns.1 m inc tok)
     | probe tok => exact hpr tok rfl
     | indirect p tok => trivial
     | rm id => trivial
